@@ -177,36 +177,87 @@ def run_cvc5(smt2, timeout_s):
         os.unlink(name)
 
 
-def discharge(axioms, ob, timeout_ms=10000, use_cvc5=True):
-    """unsat(axioms & hyps & not goal) -> 'proved'; else 'failed' (sat) or 'unknown'."""
+def solve_text(txt, timeout_ms, use_fallbacks=True):
+    """decide one SMT-LIB query in a fresh z3 context (deterministic: no shared term table);
+    fall back to the z3 4.8.12 and cvc5 command-line solvers when z3 5.1 answers unknown."""
     t0 = time.time()
-    s = z3.Solver()
+    ctx = z3.Context()
+    s = z3.Solver(ctx=ctx)
     s.set('timeout', timeout_ms)
-    for a in axioms:
-        s.add(a)
-    for h in ob.hyps:
-        s.add(h)
-    s.add(z3.Not(ob.goal))
+    s.from_string(txt)
     r = s.check()
-    ob.backend = 'z3-' + z3.get_version_string()
+    backend = 'z3-' + z3.get_version_string()
+    detail = ''
     if r == z3.unsat:
-        ob.status = 'proved'
+        status = 'proved'
     elif r == z3.sat:
-        ob.status = 'failed'
+        status = 'failed'
         try:
-            ob.detail = str(s.model())[:4000]
+            detail = str(s.model())[:4000]
         except Exception:
             pass
     else:
-        ob.status = 'unknown'
-        ob.detail = s.reason_unknown()
-        if use_cvc5:
-            r2 = run_cvc5(smtlib_of(axioms, ob.hyps, ob.goal), max(2, timeout_ms // 1000))
+        status = 'unknown'
+        detail = s.reason_unknown()
+        if use_fallbacks:
+            r2 = run_z3_cli(txt, max(2, timeout_ms // 2000))
             if r2 == 'unsat':
-                ob.status = 'proved'
-                ob.backend = 'cvc5-1.0.3'
-    ob.time = time.time() - t0
+                status, backend = 'proved', 'z3-4.8.12-cli'
+            else:
+                r3 = run_cvc5(txt, max(2, timeout_ms // 2000))
+                if r3 == 'unsat':
+                    status, backend = 'proved', 'cvc5-1.0.3'
+    del s, ctx
+    return status, backend, detail, time.time() - t0
+
+
+def run_z3_cli(smt2, timeout_s):
+    with tempfile.NamedTemporaryFile('w', suffix='.smt2', delete=False, dir=os.environ.get('PYVC_TMP')) as f:
+        f.write(smt2)
+        name = f.name
+    try:
+        p = subprocess.run(['/usr/bin/z3', '-T:%d' % int(timeout_s), name], capture_output=True, text=True,
+                           timeout=timeout_s + 5)
+        out = p.stdout.strip().splitlines()
+        return out[0] if out else 'unknown'
+    except Exception:
+        return 'unknown'
+    finally:
+        os.unlink(name)
+
+
+def discharge(axioms, ob, timeout_ms=10000, use_cvc5=True):
+    """unsat(axioms & hyps & not goal) -> 'proved'; else 'failed' (sat) or 'unknown'."""
+    txt = smtlib_of(axioms, ob.hyps, ob.goal)
+    ob.status, ob.backend, ob.detail, ob.time = solve_text(txt, timeout_ms, use_cvc5)
     return ob.status
+
+
+def _pool_job(job):
+    txt, timeout_ms, fallbacks = job
+    try:
+        return solve_text(txt, timeout_ms, fallbacks)
+    except Exception as e:      # a solver crash is 'unknown', never a verdict
+        return 'unknown', 'error', 'solver error: %r' % (e,), 0.0
+
+
+def discharge_many(axioms, obs, timeout_ms=10000, jobs=1):
+    """discharge all obligations whose status is still None (process pool over SMT-LIB texts)."""
+    todo = [ob for ob in obs if ob.status is None]
+    work = []
+    for ob in todo:
+        if ob.kind == 'canary':
+            work.append((smtlib_of(axioms, ob.hyps, ob.goal), 1500, False))
+        else:
+            work.append((smtlib_of(axioms, ob.hyps, ob.goal), timeout_ms, True))
+    if jobs > 1 and len(work) > 1:
+        import multiprocessing
+        with multiprocessing.get_context('fork').Pool(min(jobs, len(work))) as pool:
+            res = pool.map(_pool_job, work, chunksize=1)
+    else:
+        res = [_pool_job(w) for w in work]
+    for ob, r in zip(todo, res):
+        ob.status, ob.backend, ob.detail, ob.time = r
 
 
 def quick_unsat(zs, timeout_ms=150):
